@@ -63,6 +63,17 @@ CHECKS = {
     },
 }
 
+CHECKS["C16"] = {
+    "category": "model_checking",
+    "text": "Bounded symbolic execution of the real code on five templates with declared-only variables and conditionally used "
+            "undefined globals, for every subset supplied (Overlay.tweaking or OverridableProbe.override) and four instrumentation "
+            "subsets (everything / the named special variables / only another variable / generic), symbolic values and path "
+            "selectors, against the rule the property states; results, events and effect log are scanned for the ABSENT marker.",
+    "design_ref": "DESIGN.md section 4, C16",
+    "note": "Program dimension: five templates. Functions with nothing instrumented are plain Python and not checked.",
+    "technique": "bounded symbolic execution (CrossHair + z3) vs the stated NameError/substitution rule, ABSENT scan",
+}
+
 NOT_YET = {}
 
 
